@@ -17,6 +17,7 @@ import (
 	"runtime/debug"
 	"runtime/metrics"
 	"sort"
+	"strconv"
 	"strings"
 	"sync/atomic"
 	"time"
@@ -39,7 +40,6 @@ const (
 	allocFloor     = 64 << 20 // bytes
 	allocPerByte   = 64
 	slowLimit      = 20 * time.Second
-	watchdogLimit  = 60 * time.Second // a case still running after this is a hang: the process exits, the journal names it
 	maxCmapIter    = 2000
 	modulePrefix   = "github.com/go-text/typesetting/"
 	harnessPackage = "verif/props/c09"
@@ -133,9 +133,18 @@ var (
 	watchdogRun atomic.Bool
 )
 
+// watchdogLimit: a case still running after this is a hang: the process exits and the journal
+// names it (the driver then confirms by replaying the case alone). 60 s by default; the job of
+// the CFF-structured family, whose cases take milliseconds, sets C09_WATCHDOG_S to a few seconds
+// so that a hang is reported within the quick budget.
+var watchdogLimit = 60 * time.Second
+
 func startWatchdog() {
 	if !watchdogRun.CompareAndSwap(false, true) {
 		return
+	}
+	if s, err := strconv.Atoi(os.Getenv("C09_WATCHDOG_S")); err == nil && s > 0 {
+		watchdogLimit = time.Duration(s) * time.Second
 	}
 	go func() {
 		for {
